@@ -4,9 +4,12 @@ import (
 	"fmt"
 	"math"
 	"math/rand"
+	"regexp"
 	"sort"
+	"strings"
 
 	"github.com/elastos/Elastos.ELA/common"
+	"github.com/elastos/Elastos.ELA/common/config"
 	common2 "github.com/elastos/Elastos.ELA/core/types/common"
 	"github.com/elastos/Elastos.ELA/core/types/interfaces"
 	"github.com/elastos/Elastos.ELA/core/types/payload"
@@ -26,29 +29,180 @@ import (
 // Later workloads (DPoS/CR eras) append to c34Sources.
 type c34Source struct {
 	Name string
+	// Envs lists the chain environments (c34Env.Kind) the source applies to; nil = every environment.
+	Envs []string
+	// Weight of the source among the shard's sources (0 = 1).
+	Weight int
 	// Setup runs once on the node before the history (fund accounts etc.).
 	Setup func(c *kit.Ctx, nd *node.Node, r *rand.Rand) error
 	// Next returns a tx to submit (nil = nothing available now).
 	Next func(c *kit.Ctx, nd *node.Node, r *rand.Rand) interfaces.Transaction
+	// BlockTxs (optional) returns transactions that are NOT in the pool to be
+	// mined in the next block together with sel (the pool txs selected for it):
+	// non-pool txs that collide with a pool tx on a non-outpoint resource,
+	// cancel-producer / unregister-CR transactions, ...
+	BlockTxs func(c *kit.Ctx, nd *node.Node, r *rand.Rand, sel []interfaces.Transaction) []interfaces.Transaction
+}
+
+// c34Env is the chain environment of a shard. The zero Kind is the original
+// pow-era workload; the DPoS/CR environments are defined in c34_sources.go.
+type c34Env struct {
+	Kind      string                          // "" | "voting" | "committee" | "dposv2"
+	Era       string                          // node.EraTweak name ("" = pow-era)
+	Tweak     func(cfg *config.Configuration) // composed after the era tweak
+	Boot      node.BootOpts                   // node.Bootstrap options
+	SourcePct int                             // % of history steps that ask a source for a tx
 }
 
 var c34Sources []func() *c34Source
 var c34Tweaks []func(shard int) func(o *node.Options)
+var c34EnvOf func(shard int) *c34Env // nil = every shard runs the pow-era workload
+var c34Boot *node.Boot               // what node.Bootstrap built on this shard (one node per process)
+var c34RejNotes []string
+
+// c34Resources (c34_sources.go) lists the unique resources a transaction claims,
+// derived from its payload by the harness's own rules ("kind=value").
+var c34Resources func(tx interfaces.Transaction) []string
+
+// Root-cause attribution (one signature per defect instead of one per slot):
+// c34SeenTx remembers every tx ever seen in the pool, so that a slot key whose
+// holder left the pool can be traced to the key function that failed at
+// eviction time; c34Explained holds pool txs whose index entries were stripped
+// by a block tx (reported once as "block-tx-strips-pool-tx-keys").
+var c34SeenTx = map[common.Uint256]interfaces.Transaction{}
+var c34Explained = map[common.Uint256]string{}
+var c34KeyFuncRe = regexp.MustCompile(`^slot (\w+): `)
+var c34NumRe = regexp.MustCompile(`[0-9a-f]{8,}|\d+`)
+
+func c34Reason(err error) string {
+	m := err.Error()
+	if i := strings.LastIndex(m, "BlockPool swallowed the reason: "); i >= 0 {
+		m = m[i+len("BlockPool swallowed the reason: "):]
+	}
+	m = c34NumRe.ReplaceAllString(m, "#")
+	if len(m) > 80 {
+		m = m[:80]
+	}
+	return m
+}
+
+// c34BlockWatch records, before a block is mined, which pool txs hold a slot
+// key that a NON-pool block tx derives as well (collision on a resource).
+type c34Claim struct {
+	slot, key string
+	holder    common.Uint256
+	by        interfaces.Transaction
+}
+
+func c34BlockClaims(nd *node.Node, blockTxs []interfaces.Transaction) []c34Claim {
+	s := nd.TxPool.VerifSnapshot()
+	var cl []c34Claim
+	for _, tx := range blockTxs {
+		if _, inPool := s.Txs[tx.Hash()]; inPool {
+			// a pool tx owns its keys - unless it was stripped before (then a second
+			// claimant may have been admitted, and mining the first strips the second)
+			if _, stripped := c34Explained[tx.Hash()]; !stripped {
+				continue
+			}
+		}
+		keys, err := nd.TxPool.VerifSlotKeys(tx)
+		if err != nil {
+			continue
+		}
+		for name, ks := range keys {
+			for _, k := range ks {
+				if h, ok := s.Slots[name][k]; ok && h != tx.Hash() {
+					cl = append(cl, c34Claim{slot: name, key: k, holder: h, by: tx})
+				}
+			}
+		}
+	}
+	sort.Slice(cl, func(i, j int) bool { return cl[i].slot+cl[i].key < cl[j].slot+cl[j].key })
+	return cl
+}
+
+// c34AfterBlockClaims runs after the block was connected and the node's
+// post-block cleanup ran: a pool tx that collided with a block tx must either
+// have been evicted or still own its key.
+func c34AfterBlockClaims(c *kit.Ctx, nd *node.Node, stage string, cl []c34Claim) {
+	s := nd.TxPool.VerifSnapshot()
+	for _, x := range cl {
+		c.Inc("block_tx_collides_with_pool_tx:" + x.slot)
+		htx, still := s.Txs[x.holder]
+		if !still {
+			c.Inc("colliding_pool_tx_evicted:" + x.slot)
+			continue
+		}
+		if h, ok := s.Slots[x.slot][x.key]; ok && h == x.holder {
+			c.Inc("colliding_pool_tx_kept_with_key:" + x.slot)
+			continue
+		}
+		c.Inc("colliding_pool_tx_kept_without_key:" + x.slot)
+		if _, done := c34Explained[x.holder]; !done {
+			c34Explained[x.holder] = x.slot
+			c.Violate("block-tx-strips-pool-tx-keys", fmt.Sprintf("%s: block tx %s (%s, not in the pool) derives key %s of slot %s which pool tx %s (%s) holds; after CleanSubmittedTransactions+CheckAndCleanAllTransactions the pool tx is still held but the slot no longer has its key (a further tx claiming the same resource is now admitted)",
+				stage, x.by.Hash(), x.by.TxType().Name(), x.key, x.slot, x.holder, htx.TxType().Name()), map[string]interface{}{"stage": stage, "slot": x.slot})
+		}
+	}
+}
 
 func init() {
 	kit.Register(&kit.Spec{
-		ID:      "C34",
-		Rule:    "seeded histories on a live node: submissions (fresh, conflicting on an outpoint held by the pool, spending outputs already spent on chain), RemoveTransaction, MaybeAcceptTransaction, blocks containing pool txs and conflicting non-pool txs followed by the node's post-block cleanup, depth-1/2 reorganisations, pool size bound shrunk so admission hits the limit, checkpoint snapshots; after every step the hooked internal snapshot is compared with invariants recomputed from the held txs. distinct = (history, step kind, outcome); non-trivial = step changed or probed a non-empty pool",
-		Shards:  func(tier string) int { return 8 },
-		Run:     runC34,
-		Require: []string{"steps", "invariant_checks", "submit_accepted", "submit_rejected_conflict", "blocks_with_pool_txs", "blocks_with_conflicting_txs", "removals", "capacity_rejections", "reorgs", "snapshots", "nonempty_pool_checks"},
+		ID:     "C34",
+		Rule:   "seeded histories on a live node: submissions (fresh, conflicting on an outpoint held by the pool, spending outputs already spent on chain), RemoveTransaction, MaybeAcceptTransaction, blocks containing pool txs and conflicting non-pool txs followed by the node's post-block cleanup, depth-1/2 reorganisations, pool size bound shrunk so admission hits the limit, checkpoint snapshots; 3 of 8 shards run this on a pow-era chain, 5 on bootstrapped DPoS/CR chains (2 public DPoS with the CR voting period open, 2 with an elected committee, 1 DPoS v2) where ~46% of the steps come from sources that collide on purpose on owner/node keys, nicknames, CIDs, draft hashes, sponsoring members, target proposals, claim-node keys, stake addresses, and blocks carry non-pool txs colliding with pool txs on such a resource plus cancel-producer / unregister-CR txs; after every step the hooked internal snapshot is compared with invariants recomputed from the held txs. distinct = (history, step kind, outcome); non-trivial = step changed or probed a non-empty pool",
+		Shards: func(tier string) int { return 8 },
+		Run:    runC34,
+		Require: []string{"steps", "invariant_checks", "submit_accepted", "submit_rejected_conflict", "blocks_with_pool_txs", "blocks_with_conflicting_txs", "removals", "capacity_rejections", "reorgs", "snapshots", "nonempty_pool_checks",
+			"shards_env:voting/dpos-era", "shards_env:committee/dpos-era", "shards_env:dposv2/dposv2-era", "blocks_with_resource_conflicting_txs",
+			"source_accepted:chain-spend", "source_accepted:producers", "source_accepted:cr-candidates", "source_accepted:proposals", "source_accepted:claim-node", "source_accepted:stake"},
+		Post: func(a *kit.Agg) {
+			n := 0
+			for k := range a.Counters {
+				if strings.HasPrefix(k, "slot_exercised:") {
+					n++
+				}
+			}
+			nc := 0
+			for k := range a.Counters {
+				if strings.HasPrefix(k, "slot_conflict_rejected:") {
+					nc++
+				}
+			}
+			a.Counters["max:conflict_slots_with_pool_rejections"] = int64(nc)
+			if nc < 4 {
+				a.Inconclusive("submissions were refused for a pool conflict in only %d slots (want >= 4)", nc)
+			}
+			a.Counters["max:conflict_slots_exercised"] = int64(n)
+			var names []string
+			for k := range a.Counters {
+				if strings.HasPrefix(k, "slot_exercised:") {
+					names = append(names, strings.TrimPrefix(k, "slot_exercised:"))
+				}
+			}
+			sort.Strings(names)
+			a.Notes = append(a.Notes, fmt.Sprintf("conflict slots exercised (%d of 39): %s", n, strings.Join(names, " ")),
+				"conflict slots NOT reachable with the kit's signed tx factory: SidechainTxHashes (WithdrawFromSideChain), SidechainReturnDepositTxHashes (ReturnSideChainDepositCoin), NFTDestroyFromSideChainHash, createnft + createnftstakeaddr (CreateNFT), RevertToDPOSHash (needs POW consensus); CRCAppropriationKey only holds a key between a committee change and the next block (no committee change is driven during the histories); ReserveCustomID / CustomIDProposalResult / ChangeProposalOwnerTargetProposalHash depend on the seed in the quick tier")
+			if n < 22 {
+				a.Inconclusive("only %d of the 39 conflict slots were exercised (want >= 22)", n)
+			}
+		},
 		Assumptions: []string{"internal indexes are read through mempool.VerifSnapshot (build tag verif) under the pool's own lock",
 			"invariants are judged only at quiescent points: after an API call returns and, for block connection, after CleanSubmittedTransactions+CheckAndCleanAllTransactions"},
 	})
 }
 
 func c34CheckInvariants(c *kit.Ctx, nd *node.Node, stage string) {
+	// In the DPoS eras the node itself appends transactions asynchronously
+	// (go events.Notify -> AppendToTxPool). The snapshot is atomic (pool lock);
+	// the comparison with the public view is only made on a pool that did not
+	// change around the snapshot.
 	s := nd.TxPool.VerifSnapshot()
+	pubStable, n1 := false, 0
+	for try := 0; try < 5 && !pubStable; try++ {
+		n1 = nd.TxPool.GetTransactionCount()
+		s = nd.TxPool.VerifSnapshot()
+		pubStable = nd.TxPool.GetTransactionCount() == n1
+	}
 	c.Inc("invariant_checks")
 	if len(s.Txs) > 0 {
 		c.Inc("nonempty_pool_checks")
@@ -107,10 +261,25 @@ func c34CheckInvariants(c *kit.Ctx, nd *node.Node, stage string) {
 		v("pool-over-size-limit", "totalSize %d > maxSize %d", s.TotalSize, s.MaxSize)
 	}
 	// 3. slots: every key has a holder in the pool that derives this key; every held tx's keys are present and map to it
+	for h, tx := range s.Txs {
+		c34SeenTx[h] = tx
+	}
 	for name, m := range s.Slots {
 		for k, holder := range m {
 			tx, ok := s.Txs[holder]
 			if !ok {
+				// attribution: the pool removes an evicted tx slot by slot and stops at the
+				// first key function that fails; if that is ANOTHER slot's function, the
+				// leak is reported under the failing function (one defect, one signature)
+				if old := c34SeenTx[holder]; old != nil {
+					if _, err := nd.TxPool.VerifSlotKeys(old); err != nil {
+						if m := c34KeyFuncRe.FindStringSubmatch(err.Error()); m != nil && m[1] != name {
+							c.Inc("leaked_key_after_failed_keyfunc:" + m[1] + ":" + name)
+							v("evicted-tx-keeps-slot-keys:keyfunc-failed:"+m[1], "slot %s key %s still refers to evicted %s tx %s: removal stopped at slot %s whose key function now fails (%v)", name, k, old.TxType().Name(), holder, m[1], err)
+							continue
+						}
+					}
+				}
 				v("slot-key-without-holder:"+name, "slot %s key %s refers to tx %s which is not in the pool", name, k, holder)
 				continue
 			}
@@ -138,11 +307,54 @@ func c34CheckInvariants(c *kit.Ctx, nd *node.Node, stage string) {
 			c.Inc("slot_exercised:" + name)
 			for _, k := range ks {
 				holder, ok := s.Slots[name][k]
+				if _, expl := c34Explained[h]; expl && (!ok || holder != h) {
+					c.Inc("explained_by:block-tx-strips-pool-tx-keys") // already reported once for this tx
+					if ok && holder != h {
+						c.Inc("second_claimant_admitted:" + name)
+					}
+					continue
+				}
 				if !ok {
-					v("held-tx-key-absent:"+name, "pool tx %s (%s) derives key %s of slot %s which is absent", h, tx.TxType().Name(), k, name)
+					tip := ""
+					for _, bt := range nd.TipBlock().Transactions[1:] {
+						tip += fmt.Sprintf(" %s/%s", bt.TxType().Name(), bt.Hash().String()[:8])
+					}
+					v("held-tx-key-absent:"+name, "pool tx %s (%s) derives key %s of slot %s which is absent (tip block %d carries:%s)", h, tx.TxType().Name(), k, name, nd.Height(), tip)
 				} else if holder != h {
+					if _, expl := c34Explained[holder]; expl {
+						c.Inc("explained_by:block-tx-strips-pool-tx-keys")
+						continue
+					}
 					v("held-tx-key-other-holder:"+name, "pool tx %s derives key %s of slot %s held by %s", h, k, name, holder)
 				}
+			}
+		}
+	}
+	// 3b. independent resource model (does not use the pool's key functions)
+	if c34Resources != nil {
+		claimed := map[string]common.Uint256{}
+		hs := make([]common.Uint256, 0, len(s.Txs))
+		for h := range s.Txs {
+			hs = append(hs, h)
+		}
+		sort.Slice(hs, func(i, j int) bool { return hs[i].Compare(hs[j]) < 0 })
+		for _, h := range hs {
+			for _, res := range c34Resources(s.Txs[h]) {
+				c.Inc("resource_claims_checked")
+				if o, dup := claimed[res]; dup && o != h {
+					_, e1 := c34Explained[h]
+					_, e2 := c34Explained[o]
+					if e1 || e2 {
+						c.Inc("explained_by:block-tx-strips-pool-tx-keys")
+						continue
+					}
+					kind := res
+					if i := strings.Index(res, "="); i > 0 {
+						kind = res[:i]
+					}
+					v("two-txs-claim-same-resource:"+kind, "pool txs %s (%s) and %s (%s) both claim %s", o, s.Txs[o].TxType().Name(), h, s.Txs[h].TxType().Name(), res)
+				}
+				claimed[res] = h
 			}
 		}
 	}
@@ -171,11 +383,16 @@ func c34CheckInvariants(c *kit.Ctx, nd *node.Node, stage string) {
 	}
 	// 6. public view agrees
 	pub := nd.TxPool.GetTxsInPool()
+	cnt := nd.TxPool.GetTransactionCount()
+	if !pubStable || cnt != n1 { // a node-generated tx arrived between the reads
+		c.Inc("public_view_check_skipped_pool_changed")
+		return
+	}
 	if len(pub) != len(s.Txs) {
 		v("public-view-differs", "GetTxsInPool has %d txs, snapshot %d", len(pub), len(s.Txs))
 	}
-	if nd.TxPool.GetTransactionCount() != len(s.Txs) {
-		v("public-count-differs", "GetTransactionCount %d != %d", nd.TxPool.GetTransactionCount(), len(s.Txs))
+	if cnt != len(s.Txs) {
+		v("public-count-differs", "GetTransactionCount %d != %d", cnt, len(s.Txs))
 	}
 }
 
@@ -197,7 +414,22 @@ func c34CheckAgainstChain(c *kit.Ctx, nd *node.Node, stage string) {
 
 func runC34(c *kit.Ctx) {
 	r := c.Rand("c34")
+	env := &c34Env{SourcePct: 8}
+	if c34EnvOf != nil {
+		if e := c34EnvOf(c.Shard); e != nil {
+			env = e
+		}
+	}
+	c.Inc("shards_env:" + env.Kind + "/" + env.Era)
 	opts := node.Options{Dir: c.WorkDir, CoinbaseMaturity: 2}
+	if env.Era != "" {
+		opts.Tweak = func(cfg *config.Configuration) {
+			node.EraTweak(env.Era)(cfg)
+			if env.Tweak != nil {
+				env.Tweak(cfg)
+			}
+		}
+	}
 	for _, tw := range c34Tweaks {
 		tw(c.Shard)(&opts)
 	}
@@ -207,27 +439,63 @@ func runC34(c *kit.Ctx) {
 		return
 	}
 	defer nd.Close()
-	if err := nd.MineN(3); err != nil {
-		c.Inconclusive("mine: %v", err)
-		return
-	}
-	// fund 5 accounts x 40 utxos
 	accts := []int{2, 3, 4, 5, 6}
-	g := nd.GenesisUTXO()
 	val := common.Fixed64(100 * 1e8)
-	var outs []node.Out
-	for _, a := range accts {
-		for k := 0; k < 40; k++ {
-			outs = append(outs, node.Out{To: node.Key(a).ProgramHash, Value: val})
+	// mine: honest block on the tip + the node's post-block cleanup. In the DPoS
+	// eras blocks carry the node-generated txs and a confirm (MineTipDPoS).
+	mine := nd.MineTip
+	var fund interfaces.Transaction
+	var fundHeight uint32
+	if env.Era == "" {
+		if err := nd.MineN(3); err != nil {
+			c.Inconclusive("mine: %v", err)
+			return
 		}
+		// fund 5 accounts x 40 utxos
+		g := nd.GenesisUTXO()
+		var outs []node.Out
+		for _, a := range accts {
+			for k := 0; k < 40; k++ {
+				outs = append(outs, node.Out{To: node.Key(a).ProgramHash, Value: val})
+			}
+		}
+		outs = append(outs, node.Out{To: nd.Found.ProgramHash, Value: g.Value - val*common.Fixed64(len(outs)) - 10000})
+		fund = node.Transfer([]node.UTXORef{g}, outs, common2.TxVersion09)
+		if _, err := nd.MineTip(fund); err != nil {
+			c.Inconclusive("fund: %v", err)
+			return
+		}
+		nd.MineN(2)
+	} else {
+		defer nd.UnhookEvents()
+		mine = nd.MineTipDPoS
+		boot, err := nd.Bootstrap(env.Era, env.Boot)
+		if err != nil {
+			c.Inconclusive("bootstrap %s/%s: %v", env.Era, env.Kind, err)
+			return
+		}
+		c34Boot = boot
+		refs, err := nd.Fund(accts, 40, val)
+		if err != nil {
+			c.Inconclusive("fund (%s): %v", env.Era, err)
+			return
+		}
+		for _, tx := range nd.TipBlock().Transactions {
+			if tx.Hash() == refs[0][0].TxID {
+				fund = tx
+			}
+		}
+		if fund == nil {
+			c.Inconclusive("fund (%s): funding tx not in the tip block", env.Era)
+			return
+		}
+		if err := nd.MineNDPoS(2); err != nil {
+			c.Inconclusive("mine: %v", err)
+			return
+		}
+		c.Max("max:bootstrap_height:"+env.Kind, int64(nd.Height()))
+		fundHeight = nd.Height() - 2
 	}
-	outs = append(outs, node.Out{To: nd.Found.ProgramHash, Value: g.Value - val*common.Fixed64(len(outs)) - 10000})
-	fund := node.Transfer([]node.UTXORef{g}, outs, common2.TxVersion09)
-	if _, err := nd.MineTip(fund); err != nil {
-		c.Inconclusive("fund: %v", err)
-		return
-	}
-	nd.MineN(2)
 	type utxo struct {
 		ref     node.UTXORef
 		state   int // 0 free, 1 in pool, 2 confirmed-spent
@@ -240,13 +508,66 @@ func runC34(c *kit.Ctx) {
 	var sources []*c34Source
 	for _, mk := range c34Sources {
 		s := mk()
-		if s.Setup != nil {
-			if err := s.Setup(c, nd, r); err != nil {
-				c.Note("source %s setup failed: %v", s.Name, err)
+		if s.Envs != nil {
+			applies := false
+			for _, k := range s.Envs {
+				applies = applies || k == env.Kind
+			}
+			if !applies {
 				continue
 			}
 		}
+		if s.Setup != nil {
+			if err := s.Setup(c, nd, r); err != nil {
+				c.Note("source %s setup failed: %v", s.Name, err)
+				c.Inc("source_setup_failed:" + s.Name)
+				continue
+			}
+		}
+		c.Inc("source_ready:" + s.Name)
+		if s.Weight <= 0 {
+			s.Weight = 1
+		}
 		sources = append(sources, s)
+	}
+	// step mix: the pow-era shards keep the original one; era shards trade plain
+	// transfers for source steps (env.SourcePct) and some block steps
+	tFresh, tConf, tSpent, tSrc, tRemove, tMaybe, tBlock, tReorg, tResize := 40, 52, 56, 64, 66, 70, 82, 90, 93
+	if env.SourcePct > 8 {
+		sp := env.SourcePct
+		if sp > 60 {
+			sp = 60
+		}
+		tFresh = (56 - (sp - 8)) * 40 / 56
+		if tFresh < 6 {
+			tFresh = 6
+		}
+		tConf = tFresh + 4
+		tSpent = tConf + 2
+		tSrc = tSpent + sp
+		tRemove = tSrc + 1
+		tMaybe = tRemove + 2
+		tBlock = 88 // (reorg branches are connected without confirms: arbiters that "missed" them drift towards Inactive, so keep them rare)
+		tReorg = 92
+		tResize = 95
+	}
+	isSystem := func(tx interfaces.Transaction) bool {
+		switch tx.TxType() {
+		case common2.NextTurnDPOSInfo, common2.CRCAppropriation, common2.CRAssetsRectify, common2.ProposalResult,
+			common2.CRCProposalRealWithdraw, common2.DposV2ClaimRewardRealWithdraw, common2.VotesRealWithdraw,
+			common2.RevertToPOW, common2.RevertToDPOS, common2.InactiveArbitrators, common2.IllegalBlockEvidence,
+			common2.IllegalProposalEvidence, common2.IllegalVoteEvidence, common2.IllegalSidechainEvidence, common2.UpdateVersion:
+			return true
+		}
+		return false
+	}
+	unshrink := func(shrunk *bool) {
+		// the node generates the txs the NEXT block must carry while it connects a
+		// block: on era shards the bound is restored before blocks are processed
+		if env.Era != "" && *shrunk {
+			nd.TxPool.VerifSetMaxSize(20000000)
+			*shrunk = false
+		}
 	}
 	refresh := func() {
 		// recompute utxo states from chain + pool
@@ -300,14 +621,22 @@ func runC34(c *kit.Ctx) {
 	}
 	steps := c.N(150, 1200)
 	shrunk := false
+	stuck := 0
 	for i := 0; i < steps; i++ {
+		if stuck >= 3 {
+			// the workload drove the chain into a state where not even an empty block
+			// connects (e.g. too few normal arbiters left to confirm): nothing more to learn here
+			c.Inc("history_ended_chain_halted")
+			c.Note("shard %d (%s): history ended at step %d of %d: the chain no longer advances at height %d", c.Shard, env.Kind, i, steps, nd.Height())
+			break
+		}
 		refresh()
 		k := r.Intn(100)
 		kind := ""
 		outcome := ""
 		nonTrivial := nd.TxPool.GetTransactionCount() > 0
 		switch {
-		case k < 40: // fresh submission (1-2 inputs)
+		case k < tFresh: // fresh submission (1-2 inputs)
 			kind = "submit-fresh"
 			u := pick(0)
 			if u == nil {
@@ -327,11 +656,13 @@ func runC34(c *kit.Ctx) {
 				outcome = "rejected"
 				if shrunk {
 					c.Inc("capacity_rejections")
+				} else if env.Era != "" && nd.InPOWMode() {
+					c.Inc("transfer_refused_in_pow_consensus") // the workload drove the arbiters out of office: plain transfers are not allowed in POW consensus
 				} else {
 					c.Violate("honest-transfer-rejected", fmt.Sprintf("fresh honest transfer rejected: %v", e), nil)
 				}
 			}
-		case k < 52: // conflicting with a pool tx
+		case k < tConf: // conflicting with a pool tx
 			kind = "submit-conflict"
 			u := pick(1)
 			if u == nil {
@@ -349,7 +680,7 @@ func runC34(c *kit.Ctx) {
 				outcome = "rejected"
 				c.Inc("submit_rejected_conflict")
 			}
-		case k < 56: // spend of an output spent on chain
+		case k < tSpent: // spend of an output spent on chain
 			kind = "submit-chain-spent"
 			u := pick(2)
 			if u == nil {
@@ -361,8 +692,25 @@ func runC34(c *kit.Ctx) {
 			} else {
 				c.Inc("submit_rejected_spent")
 			}
-		case k < 64 && len(sources) > 0:
-			s := sources[r.Intn(len(sources))]
+		case k < tSrc && len(sources) > 0:
+			s := sources[0]
+			tw := 0
+			for _, x := range sources {
+				tw += x.Weight
+			}
+			for pick := r.Intn(tw); ; {
+				found := false
+				for _, x := range sources {
+					if pick < x.Weight {
+						s, found = x, true
+						break
+					}
+					pick -= x.Weight
+				}
+				if found {
+					break
+				}
+			}
 			kind = "source:" + s.Name
 			tx := s.Next(c, nd, r)
 			if tx == nil {
@@ -374,26 +722,45 @@ func runC34(c *kit.Ctx) {
 			} else {
 				outcome = "rejected"
 				c.Inc("source_rejected:" + s.Name)
+				c34NoteRejection(c, s.Name, tx, e)
 			}
-		case k < 66: // RemoveTransaction(parent): removes pool txs spending outputs of the given tx
+		case k < tRemove: // RemoveTransaction(parent): removes pool txs spending outputs of the given tx
 			kind = "remove"
 			nd.TxPool.RemoveTransaction(fund)
 			c.Inc("removals")
 			if nd.TxPool.GetTransactionCount() != 0 && len(sources) == 0 {
 				c.Violate("remove-left-spenders", "RemoveTransaction(fund) left pool txs although every pool tx spends an output of fund", nil)
 			}
-		case k < 70:
+		case k < tMaybe:
 			kind = "maybe-accept"
 			if u := pick(0); u != nil {
 				tx := mkTransfer([]*utxo{u}, 500)
 				nd.TxPool.MaybeAcceptTransaction(tx)
 			}
-		case k < 82: // block with some pool txs and possibly conflicting non-pool txs
+		case k < tBlock: // block with some pool txs and possibly conflicting non-pool txs
 			kind = "block"
 			txs := nd.TxPool.GetTxsInPool()
 			sort.Slice(txs, func(i, j int) bool { a, b := txs[i].Hash(), txs[j].Hash(); return a.Compare(b) < 0 })
+			unshrink(&shrunk)
+			if env.Era != "" {
+				// node-generated txs arrive asynchronously (also while a refused branch
+				// switch re-connects blocks); the kit miner packs every one it finds, the
+				// node's own miner re-validates them: drop the stale ones as it would
+				for _, tx := range txs {
+					if isSystem(tx) && nd.CheckTx(tx, 0) != nil {
+						c.Inc("stale_node_generated_tx_cleaned")
+						nd.TxPool.CheckAndCleanAllTransactions()
+						txs = nd.TxPool.GetTxsInPool()
+						sort.Slice(txs, func(i, j int) bool { a, b := txs[i].Hash(), txs[j].Hash(); return a.Compare(b) < 0 })
+						break
+					}
+				}
+			}
 			var sel []interfaces.Transaction
 			for _, tx := range txs {
+				if env.Era != "" && isSystem(tx) {
+					continue // MineTipDPoS adds the node-generated txs itself
+				}
 				if r.Intn(2) == 0 && len(sel) < 10 {
 					sel = append(sel, tx)
 				}
@@ -433,28 +800,89 @@ func runC34(c *kit.Ctx) {
 					}
 				}
 			}
-			if len(sel) == 0 {
+			// non-pool txs colliding with pool txs on a non-outpoint resource, cancel/unregister txs
+			nPool := len(sel)
+			var extra []interfaces.Transaction
+			for _, s := range sources {
+				if s.BlockTxs != nil && r.Intn(2) == 0 {
+					for _, tx := range s.BlockTxs(c, nd, r, sel) {
+						if !nd.TxPool.HaveTransaction(tx.Hash()) {
+							extra = append(extra, tx)
+						}
+					}
+				}
+			}
+			if len(sel)+len(extra) == 0 {
 				outcome = "empty"
 			}
-			b, err := nd.MineTip(sel...)
+			all := append(append([]interfaces.Transaction{}, sel...), extra...)
+			claims := c34BlockClaims(nd, all)
+			b, err := mine(all...)
+			if err != nil && len(extra) > 0 {
+				c.Inc("blocks_with_extra_txs_rejected")
+				c.Inc("block_rejected_reason:" + c34Reason(err))
+				if len(c34RejNotes) < 6 {
+					c34RejNotes = append(c34RejNotes, err.Error())
+					c.Note("block with %d pool + %d non-pool source txs rejected: %v", len(sel), len(extra), err)
+				}
+				extra = nil
+				claims = c34BlockClaims(nd, sel)
+				b, err = mine(sel...)
+			}
+			if err != nil && nPool > 0 && env.Era != "" {
+				// pool txs that are valid one by one need not be valid together (e.g. two
+				// proposals exhausting the budget): the chain must still advance
+				c.Inc("blocks_with_pool_txs_rejected")
+				c.Inc("block_rejected_reason:" + c34Reason(err))
+				if len(c34RejNotes) < 6 {
+					c34RejNotes = append(c34RejNotes, err.Error())
+					c.Note("block with %d pool txs rejected: %v", len(sel), err)
+				}
+				sel, conflicts, claims = nil, 0, nil
+				b, err = mine()
+			}
 			if err != nil {
 				c.Note("block with %d txs rejected: %v", len(sel), err)
+				c.Inc("empty_block_rejected_reason:" + c34Reason(err))
 				outcome = "rejected"
 				_ = b
+				if env.Era != "" {
+					stuck++
+				}
 			} else {
+				stuck = 0
+				if len(extra) > 0 {
+					c.Inc("blocks_with_resource_conflicting_txs")
+					outcome = "extra"
+				}
 				if len(sel)-conflicts > 0 {
 					c.Inc("blocks_with_pool_txs")
 				}
 				if conflicts > 0 {
 					c.Inc("blocks_with_conflicting_txs")
 				}
+				c34AfterBlockClaims(c, nd, fmt.Sprintf("step %d (block)", i), claims)
 				c34CheckAgainstChain(c, nd, fmt.Sprintf("step %d after block", i))
 			}
-		case k < 90: // reorg depth 1-2 with empty blocks
+		case k < tReorg: // reorg depth 1-2 with empty blocks
 			kind = "reorg"
 			if nd.Height() < 8 {
 				continue
 			}
+			if env.Era != "" {
+				// branch blocks carry no confirm, so every branch switch costs the arbiters
+				// some "missed" blocks: let abnormal (inactive) arbiters recover first,
+				// otherwise too few normal arbiters are left to confirm anything
+				abnormal := false
+				for _, a := range nd.Arbiters.GetArbitrators() {
+					abnormal = abnormal || !a.IsNormal
+				}
+				if abnormal {
+					c.Inc("reorg_skipped_abnormal_arbiter")
+					continue
+				}
+			}
+			unshrink(&shrunk)
 			depth := 1 + r.Intn(2)
 			base := nd.TipBlock()
 			for d := 0; d < depth; d++ {
@@ -464,29 +892,49 @@ func runC34(c *kit.Ctx) {
 				}
 				base = pb
 			}
-			if base.Height <= 6 { // never detach the funding block
+			if base.Height <= 6 || (fundHeight > 0 && base.Height < fundHeight+2) { // never detach the funding block
 				continue
 			}
 			parent := base
 			ok := true
 			for d := 0; d <= depth; d++ {
-				b, err := nd.Assemble(node.BlockSpec{Parent: parent, Nonce: uint64(r.Int63()) | 1})
+				asm := nd.Assemble
+				if env.Era != "" {
+					asm = nd.AssembleOn // deterministic reward outputs / aux-pow; connected without a confirm (chain.ProcessBlock(b, nil))
+				}
+				b, err := asm(node.BlockSpec{Parent: parent, Nonce: uint64(r.Int63()) | 1})
 				if err != nil {
 					ok = false
 					break
 				}
 				if _, _, err := nd.Process(b); err != nil {
+					c.Inc("reorg_block_rejected")
 					ok = false
 					break
 				}
 				nd.PostBlock(b)
+				if env.Era != "" {
+					nd.Chain.UTXOCache.CleanTxCache() // as netsync does on ETBlockConnected
+				}
 				parent = b
+			}
+			if ok && env.Era != "" && !nd.Tip().IsEqual(parent.Hash()) {
+				c.Inc("reorg_refused")
+				ok = false
+			}
+			if env.Era != "" && !ok {
+				// a refused / failed switch re-attaches the old branch: the node cleans the
+				// pool on the ETBlockConnected / ETBlockProcessed events of those blocks
+				tb := nd.TipBlock()
+				claims := c34BlockClaims(nd, tb.Transactions[1:])
+				nd.PostBlock(tb)
+				c34AfterBlockClaims(c, nd, fmt.Sprintf("step %d (tip re-connected after a refused branch switch)", i), claims)
 			}
 			if ok {
 				c.Inc("reorgs")
 				c34CheckAgainstChain(c, nd, fmt.Sprintf("step %d after reorg", i))
 			}
-		case k < 93: // shrink / restore the size bound
+		case k < tResize: // shrink / restore the size bound
 			kind = "resize"
 			if !shrunk {
 				s := nd.TxPool.VerifSnapshot()
@@ -503,6 +951,9 @@ func runC34(c *kit.Ctx) {
 				c.Violate("snapshot-failed", "TxPool.Snapshot returned nil", nil)
 			}
 			c.Inc("snapshots")
+		}
+		if env.Era != "" && nd.InPOWMode() {
+			c.Inc("steps_in_pow_consensus")
 		}
 		c.Inc("steps")
 		c.Inc("step:" + kind)
